@@ -1,0 +1,35 @@
+//go:build verif
+
+package node
+
+// Verification-harness accessors (only with -tags verif). The worker map is
+// written only inside handlers of the supervisor machine, so these are meant
+// to be called from tracer callbacks of that machine (no handler runs then).
+
+// VerifWorkers returns the number of tracked workers, of those with an RPC
+// connection, and of those counted as ready by the supervisor itself.
+func (s *Supervisor) VerifWorkers() (total, withRpc, ready int) {
+	return len(s.workers), len(s.rpcWorkers()), len(s.readyWorkers())
+}
+
+// VerifWorkerErrs returns the number of recorded errors of the worker tracked
+// under localAddr, or -1 when no such worker is tracked.
+func (s *Supervisor) VerifWorkerErrs(localAddr string) int {
+	w, ok := s.workers[localAddr]
+	if !ok || w.errs == nil {
+		return -1
+	}
+	return w.errs.ItemCount()
+}
+
+// VerifWorkerAddrs returns the local addresses of all tracked workers.
+func (s *Supervisor) VerifWorkerAddrs() []string {
+	ret := make([]string, 0, len(s.workers))
+	for addr := range s.workers {
+		ret = append(ret, addr)
+	}
+	return ret
+}
+
+// VerifMin returns min(Min, Max) as used by the supervisor.
+func (s *Supervisor) VerifMin() int { return s.min() }
